@@ -515,6 +515,7 @@ func handleOne(rq wproto.Req, alone bool) (rp wproto.Rep) {
 	}
 	var mu sync.Mutex // massive mode calls back from several goroutines
 	visits := 0
+	var kept []*gtree.WalkerNode // a callback may keep the nodes it is handed and read them when the walk is over
 	var walk []string // callbacks may still arrive while a cancelled call is winding down: never touch rp from them
 	cb := func(wn *gtree.WalkerNode) error {
 		if stallCh != nil {
@@ -524,6 +525,7 @@ func handleOne(rq wproto.Req, alone bool) (rp wproto.Rep) {
 		mu.Lock()
 		defer mu.Unlock()
 		walk = append(walk, wn.Row())
+		kept = append(kept, wn)
 		visits++
 		if rq.FailVisit > 0 && visits == rq.FailVisit {
 			return errCallback
@@ -665,6 +667,14 @@ func handleOne(rq wproto.Req, alone bool) (rp wproto.Rep) {
 	})
 	mu.Lock()
 	rp.Walk = append([]string{}, walk...)
+	if o.Class() == "ok" {
+		// collect first, report later: a node kept from its visit still answers what it answered then
+		for i, wn := range kept {
+			if now := wn.Row(); i < len(rp.Walk) && now != rp.Walk[i] {
+				rp.Walk[i] = fmt.Sprintf("<the node handed to a visit said Row=%q when visited and says Row=%q after the walk>", rp.Walk[i], now)
+			}
+		}
+	}
 	mu.Unlock()
 	fw.mu.Lock() // a spreader goroutine may still be inside a Write when the call has returned an error
 	rp.Class, rp.Out, rp.Err = o.Class(), buf.String(), o.ErrString()
